@@ -198,7 +198,7 @@ def execute(sc, ctx):
                 return
             got = p.recv_pdu(1.0)
             for i, pr in enumerate(sc["probes"]):
-                sim.record("probe", i=i, cls=pr["cls"], kind=pr["kind"], n=len(pr["hex"]) // 2)
+                sim.record("probe", i=i, cls=pr["cls"], what=pr["kind"], n=len(pr["hex"]) // 2)
                 p.send(bytes.fromhex(pr["hex"]))
             ctx.obs["peer_end"] = p.drain(4 * t + 0.2)
             p.close()
@@ -233,9 +233,9 @@ def execute(sc, ctx):
             p.send(first + bytes.fromhex(sc["probes"][0]["hex"]))
         for i, pr in enumerate(sc["probes"]):
             if state == "sta13" and i == 0:
-                sim.record("probe", i=i, cls=pr["cls"], kind=pr["kind"], n=len(pr["hex"]) // 2)
+                sim.record("probe", i=i, cls=pr["cls"], what=pr["kind"], n=len(pr["hex"]) // 2)
                 continue
-            sim.record("probe", i=i, cls=pr["cls"], kind=pr["kind"], n=len(pr["hex"]) // 2)
+            sim.record("probe", i=i, cls=pr["cls"], what=pr["kind"], n=len(pr["hex"]) // 2)
             p.send(bytes.fromhex(pr["hex"]))
         ctx.obs["peer_end"] = p.drain(4 * t + 0.2)
         p.close()
@@ -269,11 +269,14 @@ def check(sc, r):
             raw = W.pdu(t, payload)
             if raw in recv:
                 # delivered to the decoder: an EVT_PDU_RECV must follow it (decode succeeded) rather than Evt19
+                # delivered to the decoder: the next PDU-class event the state machine sees tells how it was classified
+                # (EVT_PDU_RECV itself is not reliable here: a logging handler bound before ours may raise first)
                 idx = max(i for i, h in enumerate(ev) if h["evt"] == "EVT_DATA_RECV" and h.get("data") == raw)
-                nxt = next((h for h in ev[idx + 1:] if h["evt"] in ("EVT_PDU_RECV", "EVT_FSM_TRANSITION")), None)
-                if nxt is None or nxt["evt"] != "EVT_PDU_RECV":
+                pdu_evts = ("Evt3", "Evt4", "Evt6", "Evt10", "Evt12", "Evt13", "Evt16", "Evt19")
+                nxt = next((h for h in ev[idx + 1:] if h["evt"] == "EVT_FSM_TRANSITION" and h["fsm_event"] in pdu_evts), None)
+                if nxt is not None and nxt["fsm_event"] == "Evt19":
                     out.append(C.v("accept-conformant", "C02/conformant-pdu-rejected/%s/%s" % (sc["state"], pr["kind"]),
-                                   "a conformant %s PDU (%d bytes) was not decoded: next event %s" % (pr["kind"], len(raw), nxt and (nxt.get("fsm_event") or nxt["evt"]))))
+                                   "a conformant %s PDU (%d bytes) was classified as invalid (Evt19)" % (pr["kind"], len(raw))))
                     break
     return out
 
